@@ -1,12 +1,18 @@
 package main
 
-import "time"
+import (
+	"path/filepath"
+	"time"
+)
 
 var _ = time.Second
 
 func init() {
 	reg(&prop{
-		id: "C17", pkg: "c17",
+		id: "C17", pkg: "c17", prep: chain(prepStdh("san"), func(c *ctx) error {
+			c.env = append(c.env, "VERIF_STDH_DECODE="+filepath.Join(c.scratch, "stdh-san"))
+			return nil
+		}),
 		rule:          "Round trips: rapid-generated payload recipes (segments: literal bytes biased to 0xFF/0x00/0x7F/0x80, byte runs, PRNG-incompressible, English-like text, small-alphabet mixes, 'adv' = bytes chosen greedily on a local simulation of the range encoder to keep `low` in 0xFF00_0000..0xFFFF_FFFF (long pending-0xFF chains, optionally resolved by a forced carry / forced non-carry) or to maximise carries, 'edge' = a chunk whose raw LZMA stream length is within a drawn delta (-6..+8) of its own length, found by bisection on the simulator) x {LZMA, XZ} x dst prefixes for Encode and Decode (nil, empty-with-capacity, 1..40 bytes, with spare capacity) x optional trailing bytes after the file; sizes 0, 1, 2..255, 256..4096 (bulk), 127/128/129/16383/16384/16385 (index varint edges), 65535/65536/65537/131071/131072/131073/196608/196609 (chunk framing), runs up to 200000, up to 1 MiB (few). Oracles: Encode err==nil and prefix preserved; Decode(Encode(x)) == prefix+x, err==nil, remaining source == exactly the trailer; src arguments unmodified; on a sample `/usr/bin/xz -dc --format=lzma|xz` (one subprocess per case) exits 0 and yields x; Wuffs std decoders via $VERIF_STDH_DECODE when set. Non-trivial = payload >= 256 bytes; distinct by (format, payload). Robustness: a valid file (or raw bytes, or a valid 13/24-byte header + arbitrary/all-zero body) with 0..4 mutations (byte set/xor/insert/delete/truncate/duplicate/append; LZMA header size field set to 0, 2^16..2^63-1, -1, -2, actual+-k; LZMA2 chunk control/size/props bytes; end marker, block padding, block CRC; index indicator/count/varints incl. overlong; index padding/CRC; footer CRC/backward size/flags/magic; CRC fix-ups so deeper fields are reached); Decode must not panic, must append <= 64*len(src)+64 bytes, keep the dst prefix, leave src unmodified and return a remaining source that is a suffix of src; a per-case watchdog on live heap (768 MiB) / 120 s catches unbounded work. Non-trivial = mutated/raw input whose 13-byte LZMA header (props, dict, size >= 0) or 24-byte XZ header still parses; distinct by (format, bytes).",
 		assumptions:   []string{"/usr/bin/xz (XZ Utils, liblzma) is a correct full LZMA/XZ decoder", "the Wuffs std/lzma and std/xz decoders are only consulted when $VERIF_STDH_DECODE names the C harness (otherwise counted as wuffs-decoder-skipped)", "payloads above 1 MiB are not generated"},
 		minNontrivial: 20000,
